@@ -31,15 +31,17 @@ def cancel_points(ctx0, bounds, victims=None, include_done=False):
 
 
 def find_do(script, victim):
-    """locate the ['DO', victim, ...] op; returns (containing list, index)"""
+    """locate the ['DO', victim, ...] op anywhere below `script`; returns (containing list, index)"""
+    if not isinstance(script, list):
+        return None
     for i, op in enumerate(script):
-        if op[0] == 'DO' and op[1] == victim:
+        if isinstance(op, list) and len(op) >= 3 and op[0] == 'DO' and op[1] == victim:
             return script, i
-        for arg in op[1:]:
-            if isinstance(arg, list) and arg and isinstance(arg[0], list):
-                r = find_do(arg, victim)
-                if r:
-                    return r
+    for op in script:
+        if isinstance(op, list):
+            r = find_do(op, victim)
+            if r:
+                return r
     return None
 
 
